@@ -645,7 +645,7 @@ class SavableFuture(futures.Future, Savable):
 
         if state == asyncio.futures._FINISHED:  # type: ignore
             obj = cls(loop=loop)
-            result = saved_state['_result']
+            result = obj._get_value(saved_state, '_result', load_context)
 
             try:
                 exception = saved_state['exception']
